@@ -1,0 +1,129 @@
+//go:build verif
+// +build verif
+
+package gbn
+
+import "time"
+
+// This file is only compiled with the `verif` build tag. It exposes read-only
+// accessors and thin wrappers around unexported types so that an external
+// verification harness can observe window bookkeeping. It changes no
+// behaviour.
+
+// VerifWindowState is a snapshot of the sender window bookkeeping.
+type VerifWindowState struct {
+	N    uint8
+	S    uint8
+	Base uint8
+	Top  uint8
+	Size uint8
+}
+
+// VerifWindow returns a snapshot of the send window of the connection.
+func (g *GoBackNConn) VerifWindow() VerifWindowState {
+	q := g.sendQueue
+
+	q.baseMtx.RLock()
+	base := q.sequenceBase
+	q.baseMtx.RUnlock()
+
+	q.topMtx.RLock()
+	top := q.sequenceTop
+	q.topMtx.RUnlock()
+
+	return VerifWindowState{
+		N:    g.cfg.n,
+		S:    q.cfg.s,
+		Base: base,
+		Top:  top,
+		Size: q.size(),
+	}
+}
+
+// VerifResendTimeout returns the connection's current resend timeout.
+func (g *GoBackNConn) VerifResendTimeout() time.Duration {
+	return g.timeoutManager.GetResendTimeout()
+}
+
+// VerifHandshakeTimeout returns the connection's current handshake timeout.
+func (g *GoBackNConn) VerifHandshakeTimeout() time.Duration {
+	return g.timeoutManager.GetHandshakeTimeout()
+}
+
+// VerifQueue wraps the unexported send queue.
+type VerifQueue struct {
+	q *queue
+}
+
+// VerifNewQueue creates a stand-alone send queue with sequence space s.
+func VerifNewQueue(s uint8) *VerifQueue {
+	return &VerifQueue{
+		q: newQueue(
+			&queueCfg{
+				s: s,
+				sendPkt: func(packet *PacketData) error {
+					return nil
+				},
+			},
+			NewTimeOutManager(nil),
+		),
+	}
+}
+
+// Add appends a packet to the queue and returns the sequence number it got.
+func (v *VerifQueue) Add(p *PacketData) uint8 {
+	v.q.addPacket(p)
+
+	return p.Seq
+}
+
+// ProcessACK feeds an ACK into the queue.
+func (v *VerifQueue) ProcessACK(seq uint8) bool {
+	return v.q.processACK(seq)
+}
+
+// ProcessNACK feeds a NACK into the queue.
+func (v *VerifQueue) ProcessNACK(seq uint8) (bool, bool) {
+	return v.q.processNACK(seq)
+}
+
+// Base returns the current window base.
+func (v *VerifQueue) Base() uint8 {
+	v.q.baseMtx.RLock()
+	defer v.q.baseMtx.RUnlock()
+
+	return v.q.sequenceBase
+}
+
+// Top returns the current window top.
+func (v *VerifQueue) Top() uint8 {
+	v.q.topMtx.RLock()
+	defer v.q.topMtx.RUnlock()
+
+	return v.q.sequenceTop
+}
+
+// Size returns the number of outstanding packets.
+func (v *VerifQueue) Size() uint8 {
+	return v.q.size()
+}
+
+// ContentNil reports whether slot i of the queue holds no packet. Slots outside
+// the backing slice are reported as nil.
+func (v *VerifQueue) ContentNil(i int) bool {
+	if i < 0 || i >= len(v.q.content) {
+		return true
+	}
+
+	return v.q.content[i] == nil
+}
+
+// Stop releases the queue.
+func (v *VerifQueue) Stop() {
+	v.q.stop()
+}
+
+// VerifContainsSequence exposes containsSequence.
+func VerifContainsSequence(base, top, seq uint8) bool {
+	return containsSequence(base, top, seq)
+}
